@@ -35,6 +35,27 @@ def neighbours(w):
     return {x for x in out if x and re.match(r"^[A-Za-z_$][A-Za-z0-9_$]*$", x)}
 
 
+def crossovers(words):
+    """words mixed from two spellings of the same length that differ in 2..5 places: each differing place taken from either
+    ('char16_t' x 'char32_t' -> 'char12_t', 'char36_t'): what a trie node shared by two spellings may accept by mistake"""
+    out = set()
+    by_len = {}
+    for w in words:
+        by_len.setdefault(len(w), []).append(w)
+    for ws in by_len.values():
+        for i, a in enumerate(ws):
+            for b in ws[i + 1:]:
+                diff = [k for k in range(len(a)) if a[k] != b[k]]
+                if 2 <= len(diff) <= 5:
+                    for mask in range(1, (1 << len(diff)) - 1):
+                        c = list(a)
+                        for j, k in enumerate(diff):
+                            if mask >> j & 1:
+                                c[k] = b[k]
+                        out.add("".join(c))
+    return {x for x in out if re.match(r"^[A-Za-z_$][A-Za-z0-9_$]*$", x)} - set(words)
+
+
 def optsets(ctx):
     sets = []
     for std in "0123":
@@ -81,8 +102,10 @@ def run(ctx):
     words = set()
     for w in spell:
         words |= neighbours(w)
+    cross = crossovers(spell)
+    words |= cross
     words = sorted(words)
-    small = sorted(set(spell) | {w[:-1] for w in spell if len(w) > 1} | {w + "_" for w in spell} | {w.swapcase() for w in spell})
+    small = sorted(set(spell) | {w[:-1] for w in spell if len(w) > 1} | {w + "_" for w in spell} | {w.swapcase() for w in spell} | cross)
     sets, off, flips, rnd = optsets(ctx)
     if not ctx.quick:
         for _ in range(20000):
@@ -124,7 +147,7 @@ def run(ctx):
     ctx.cov.update({
         "evaluations": len(lines), "distinct_nontrivial": len(nontrivial), "traces_validated_against_impl": len(lines),
         "exhaustive": True,
-        "rule": "every keyword / operator-name spelling of the specification table and of the current trie (%d) with all single-character deletions, case flips, substitutions and insertions over a 7+1 character alphabet and all proper prefixes (%d identifier-shaped words) x {C89,C99,C11,C17} x {defaults, all switches on, all off} + recognition-off sets; every switch flipped singly (x C99/C11) and seeded random valuations on the spellings and their closest variants; non-trivial = distinct (options, word) cases the specification classifies as a keyword or operator name"
+        "rule": "every keyword / operator-name spelling of the specification table and of the current trie (%d) with all single-character deletions, case flips, substitutions and insertions over a 7+1 character alphabet, all proper prefixes and all cross-overs of two spellings of one length that differ in 2..5 places (%d identifier-shaped words) x {C89,C99,C11,C17} x {defaults, all switches on, all off} + recognition-off sets; every switch flipped singly (x C99/C11) and seeded random valuations on the spellings and their closest variants; non-trivial = distinct (options, word) cases the specification classifies as a keyword or operator name"
                 % (len(spell), len(words)),
         "samples": [lines[0], lines[len(lines) // 2], lines[-1]],
     })
